@@ -249,9 +249,35 @@ def run_check(prop, tier, seed, replay):
                     if f.startswith('VIOL') and tag == prop:
                         violations.append((f[:400], h.get('trace'), False))
                     elif f.startswith('MISMATCH') and (tag is None or tag == prop) and prop in P.get('mismatch_props', [prop]) and P.get('mismatch_counts', False):
-                        violations.append((f[:400], h.get('trace'), True))
+                        violations.append((f[:400], h.get('trace'), not P.get('mismatch_is_failing_input', False)))
                     elif f.startswith('DRIVER-EOF'):
                         violations.append((f[:400], h.get('trace'), True))
+        # --- search for a failing input: the correspondence broke (model and node disagree on a history) but no property monitor
+        # fired yet. The property may fail later in the same history (funds mature, a payout happens, a restart): the
+        # disagreeing histories are continued for much longer and the monitors watched.
+        only_nofail = [v for v in violations if v[2]] and not [v for v in violations if not v[2]]
+        if only_nofail and P.get('campaigns'):
+            seeds_by_profile = {}
+            for (msg, tr, nf) in violations:
+                mm = re.search(r'/([a-z0-9]+)-(\d+)\.trace$', tr or '')
+                if mm:
+                    seeds_by_profile.setdefault(mm.group(1), [])
+                    if int(mm.group(2)) not in seeds_by_profile[mm.group(1)] and len(seeds_by_profile[mm.group(1)]) < 3:
+                        seeds_by_profile[mm.group(1)].append(int(mm.group(2)))
+            searched = 0
+            for prof, sds in seeds_by_profile.items():
+                r = run_campaign(prof, seed, len(sds), 'thorough', extra=['-seeds', ','.join(str(x) for x in sds), '-histblocks', str(P.get('search_blocks', 260))])
+                searched += r.get('ops', 0)
+                for h in r.get('histories', []):
+                    for pmsg in (h.get('panics') or []):
+                        if P.get('panics_count', False):
+                            violations.append(('PANIC ' + pmsg[:400], h.get('trace'), False))
+                    for f in (h.get('fails') or []):
+                        m2 = re.match(r'VIOL (C\d+)', f)
+                        if m2 and m2.group(1) == prop:
+                            violations.append((f[:400] + ' [found by continuing a disagreeing history]', h.get('trace'), False))
+            camp.append({'search': 'continued %d disagreeing histories to %d blocks' % (sum(len(v) for v in seeds_by_profile.values()), P.get('search_blocks', 260)), 'ops': searched})
+            total_ops += searched
         for m in P.get('modes', []):
             def subst(a):
                 mm = re.match(r'\{n:(\d+):(\d+)\}', a)
